@@ -892,6 +892,17 @@ def _atan2_new(c, yt, xt, ye, xe, p):
 
 
 def _acos(x):
+    """memoised by argument identity: the same call evaluated twice is the same Term"""
+    if isinstance(x, Term) and x.const is None and Ctx.cur is not None and not Ctx.cur.concolic:
+        c = Ctx.cur
+        mk = ('_acos', x.e.get_id())
+        if mk not in c.div_memo:
+            c.div_memo[mk] = (_acos_new(x), x.e)
+        return c.div_memo[mk][0]
+    return _acos_new(x)
+
+
+def _acos_new(x):
     if not isinstance(x, Term):
         return _math.acos(x)
     if x.const is not None:
@@ -936,6 +947,17 @@ def _acos(x):
 
 
 def _asin(x):
+    """memoised by argument identity: the same call evaluated twice is the same Term"""
+    if isinstance(x, Term) and x.const is None and Ctx.cur is not None and not Ctx.cur.concolic:
+        c = Ctx.cur
+        mk = ('_asin', x.e.get_id())
+        if mk not in c.div_memo:
+            c.div_memo[mk] = (_asin_new(x), x.e)
+        return c.div_memo[mk][0]
+    return _asin_new(x)
+
+
+def _asin_new(x):
     if not isinstance(x, Term):
         return _math.asin(x)
     if x.const is not None:
@@ -979,6 +1001,17 @@ def _asin(x):
 
 
 def _atan(x):
+    """memoised by argument identity: the same call evaluated twice is the same Term"""
+    if isinstance(x, Term) and x.const is None and Ctx.cur is not None and not Ctx.cur.concolic:
+        c = Ctx.cur
+        mk = ('_atan', x.e.get_id())
+        if mk not in c.div_memo:
+            c.div_memo[mk] = (_atan_new(x), x.e)
+        return c.div_memo[mk][0]
+    return _atan_new(x)
+
+
+def _atan_new(x):
     if not isinstance(x, Term):
         return _math.atan(x)
     if x.const is not None:
